@@ -71,6 +71,10 @@ struct ToolResult {
 typedef std::function<bool(const std::string& path, std::string* content)> ReadFn;
 ToolResult toolCompute(const Cmd& c, const ReadFn& read);
 
+// how the tool spells a path (relative to the build's directory) in its dependency file: Makefile-style files of a command
+// with a working directory name relative paths from that directory
+std::string depSpelling(const Cmd& c, const std::string& path);
+
 // dependency file renderings
 std::string renderMakefileDeps(const std::string& target, const std::vector<std::string>& paths, int variant);
 std::string renderDependencyInfo(const std::vector<std::string>& inputs, const std::vector<std::string>& missing,
